@@ -10,7 +10,7 @@ def Cmd.wRemote : Cmd → Bool
   | _ => false
 /-- may change HEAD of next/src (or remove / create `next`) -/
 def Cmd.wHead : Cmd → Bool
-  | .rmrfNext | .mkdirNext | .gitClone | .gitCommitPolicy | .gitPullMerge | .gitResetHash | .mvNextTo | .gitRevert
+  | .rmrfNext | .mkdirNext | .rmrfNextSrc | .gitClone | .gitCommitPolicy | .gitPullMerge | .gitResetHash | .mvNextTo | .gitRevert
   | .gitPullPlain => true
   | _ => false
 def Cmd.wCurrent : Cmd → Bool
@@ -123,5 +123,25 @@ theorem fr_edited (h : (exec c g p).1.edited = false) : g.edited = false := by
   revert h
   cases c <;> simp only [exec] <;> (repeat' split) <;> simp_all [G.setNextHead] <;> (repeat' split) <;> simp_all
 end
+
+def Cmd.wNext : Cmd → Bool
+  | .rmrfNext | .mkdirNext | .rmrfNextSrc | .mkdirNextP | .gitClone | .compile | .gitCommitPolicy | .gitPullMerge | .gitResetHash | .mvNextTo
+  | .gitRevert | .gitPullPlain => true
+  | _ => false
+def Cmd.wDirs : Cmd → Bool
+  | .mvNextTo => true
+  | _ => false
+def Cmd.wGhost : Cmd → Bool
+  | .gitClone | .gitCommitPolicy | .gitPullMerge | .gitPush | .gitRevert => true
+  | _ => false
+
+theorem fr_next (c : Cmd) (g : G) (p : Proc) (h : c.wNext = false) : (exec c g p).1.next = g.next := by
+  cases c <;> simp [Cmd.wNext] at h <;> simp only [exec] <;> (repeat' split) <;> simp_all
+theorem fr_dirs (c : Cmd) (g : G) (p : Proc) (h : c.wDirs = false) : (exec c g p).1.dirs = g.dirs := by
+  apply exec_dirs; intro hc; subst hc; simp [Cmd.wDirs] at h
+theorem fr_ghost (c : Cmd) (g : G) (p : Proc) (h : c.wGhost = false) :
+    (exec c g p).1.trouble = g.trouble ∧ (exec c g p).1.edited = g.edited := by
+  cases c <;> simp [Cmd.wGhost] at h <;> simp only [exec] <;> (repeat' split) <;> simp_all
+
 
 end NA.C19
